@@ -272,8 +272,8 @@ func (v *TV) show() string {
 	case "bool":
 		return strconv.FormatBool(v.B)
 	case "num":
-		if v.E == 0 {
-			return v.N.String()
+		if v.E >= 0 && v.E <= 20 {
+			return v.N.String() + strings.Repeat("0", v.E)
 		}
 		if v.E < 0 && v.E > -40 {
 			s := new(big.Int).Abs(v.N).String()
